@@ -89,9 +89,11 @@ class C03(props.Prop):
         'case = one whole simulated run against an adversarial command model '
         '(hash-sparse acceptance turns ddSMT into a random walk on the '
         'proposal graph; erasing mutators often disabled; inputs biased to '
-        'the shapes named in the anchors) under a deterministic per-step '
-        'instruction budget (sys.monitoring jump counter between two yield '
-        'points); distinct = trace digest; non-trivial = the run adopted >= 2 '
+        'the shapes named in the anchors; 40 % neighbourhood adversaries, '
+        '12 % complexity-stress inputs with terms nested 12-48 deep or 30-120 '
+        'wide, 10 % corpus of would-be cycles) under a deterministic per-step '
+        'budget (sys.monitoring: jumps and calls between two yield points; '
+        '3 M + 30 n^2 for n tokens); distinct = trace digest; non-trivial = the run adopted >= 2 '
         'simplifications (a chain in which a revisit could occur)')
     budget = {'quick': 40, 'thorough': 720}
 
